@@ -20,7 +20,7 @@ use std::process::{Command, Stdio};
 use std::sync::atomic::{AtomicUsize, Ordering};
 use std::sync::{Arc, Mutex};
 
-pub const FAMILIES: [&str; 20] = [
+pub const FAMILIES: [&str; 26] = [
     "block-literal-lines",
     "block-folded-long-lines",
     "block-wide-indent",
@@ -41,6 +41,12 @@ pub const FAMILIES: [&str; 20] = [
     "tagged-entries",
     "explicit-keys",
     "crlf-utf8-map",
+    "long-key-lines",
+    "flow-single-pairs",
+    "nest100-per-line",
+    "indentless-sequences",
+    "flow-multiline-comments",
+    "anchored-small-collections",
 ];
 pub const APIS: [&str; 4] = ["iter-str", "iter-buffered", "load-yaml", "load-marked"];
 pub const RATIO_LIMIT: f64 = 6.0;
@@ -64,6 +70,20 @@ pub fn alias_text(levels: usize, width: usize) -> String {
 pub fn render(family: &str, bytes: usize) -> String {
     if family == "alias-expansion" {
         return alias_text(bytes, 9);
+    }
+    if family == "alias-fanout" {
+        // one anchored sequence of N items, aliased N times: N^2 cloned nodes for O(N) text
+        let n = bytes;
+        let mut s = String::from("a: &big [");
+        for _ in 0..n {
+            s.push_str("x, ");
+        }
+        s.push_str("x]\nb: [");
+        for _ in 0..n {
+            s.push_str("*big, ");
+        }
+        s.push_str("*big]\n");
+        return s;
     }
     if family == "nested-complex-keys" {
         // `? ? ? ... a`: each level is a mapping whose KEY is the mapping below it
@@ -197,6 +217,51 @@ pub fn render(family: &str, bytes: usize) -> String {
         "explicit-keys" => {
             while s.len() < bytes {
                 s.push_str(&format!("? key{k}\n: value\n"));
+                k += 1;
+            }
+        }
+        "long-key-lines" => {
+            while s.len() < bytes {
+                s.push_str(&format!("k{k}"));
+                for _ in 0..99 {
+                    s.push_str("abcdefghij");
+                }
+                s.push_str(": v\n");
+                k += 1;
+            }
+        }
+        "flow-single-pairs" => {
+            s.push('[');
+            while s.len() < bytes {
+                s.push_str(&format!("k{k}: v, \"q{k}\": [a], "));
+                k += 1;
+            }
+            s.push_str("z]\n");
+        }
+        "nest100-per-line" => {
+            while s.len() < bytes {
+                for _ in 0..100 {
+                    s.push_str("- ");
+                }
+                s.push_str("a\n");
+            }
+        }
+        "indentless-sequences" => {
+            while s.len() < bytes {
+                s.push_str(&format!("k{k}:\n- a\n- b\n-\n"));
+                k += 1;
+            }
+        }
+        "flow-multiline-comments" => {
+            s.push_str("[\n");
+            while s.len() < bytes {
+                s.push_str("  a, # comment\n  {b: c}, # another\n");
+            }
+            s.push_str("]\n");
+        }
+        "anchored-small-collections" => {
+            while s.len() < bytes {
+                s.push_str(&format!("- &c{k} [x, y, {{z: w}}]\n- *c{k}\n- *c{k}\n"));
                 k += 1;
             }
         }
@@ -409,7 +474,8 @@ pub fn run(cfg: &Config) -> (i32, J) {
         }
     };
     // Scenarios whose size parameter is a number of levels, not bytes.
-    let specials: [(&str, usize, usize, &str); 2] = [
+    let specials: [(&str, usize, usize, &str); 3] = [
+        ("alias-fanout", 200, 800, "one anchored sequence of N items aliased N times"),
         ("alias-expansion", 3, 5, "work must grow like the text, not like the expanded tree"),
         ("nested-complex-keys", 500, 2000, "a chain of mappings used as mapping keys: inserting each key hashes its whole subtree"),
     ];
@@ -466,8 +532,9 @@ pub fn run(cfg: &Config) -> (i32, J) {
     let wall = t0.elapsed().as_secs_f64();
     let max_ratio = worst.as_ref().map_or(0.0, |w| w.ratio);
     println!(
-        "C01 instruction clock: {} scenarios (20 families x 4 APIs x {:?} bytes, each at n and 4n) under valgrind in {:.1}s; worst growth x{:.2} ({}), limit x{RATIO_LIMIT}",
+        "C01 instruction clock: {} scenarios ({} families x 4 APIs x {:?} bytes, each at n and 4n) under valgrind in {:.1}s; worst growth x{:.2} ({}), limit x{RATIO_LIMIT}",
         ok_rows.len(),
+        FAMILIES.len(),
         sizes(&cfg.tier),
         wall,
         max_ratio,
@@ -513,7 +580,7 @@ pub fn replay(case: &Case, path: &str) -> i32 {
         eprintln!("harness error: valgrind not available");
         return 2;
     }
-    if case.shape == "alias-expansion" || case.shape == "nested-complex-keys" {
+    if case.shape == "alias-expansion" || case.shape == "nested-complex-keys" || case.shape == "alias-fanout" {
         let l2 = if case.shape == "alias-expansion" { case.depth + 2 } else { case.depth * 4 };
         let r = (|| -> Result<(u64, u64, u64), String> {
             Ok((measure("map-entries", 0, &case.api)?.0, measure(&case.shape, case.depth, &case.api)?.0, measure(&case.shape, l2, &case.api)?.0))
